@@ -8,6 +8,7 @@ CONSTANTS
   Runes = {}
   RErrs = {}
   WErrs = {}
+  RunLens = {}
   MaxLen = 0
 INVARIANTS TypeOK PrevOK CleanNoUnread
 CONSTRAINT Mark
